@@ -3,6 +3,8 @@ from sa.selftest import Mut
 DT = 'torchtree/evolution/datatype.py'
 SP = 'torchtree/evolution/site_pattern.py'
 TL = 'torchtree/evolution/tree_likelihood.py'
+TM = 'torchtree/evolution/tree_model.py'
+AL = 'torchtree/evolution/alignment.py'
 
 def T(id, file, old, new, expect=None, benign=False):
     return Mut(id, file, '', old, new, expect=expect, benign=benign, mode='text')
@@ -25,4 +27,17 @@ CORPUS = [
       expect=[('C02.M', 'calculate_treelikelihood_tip_states_discrete::unknown-state-column')]),
     T('c02-benign-definite-by-encoding', DT, "string not in 'ACGTUacgtu'", "self.encoding(string) >= 4", benign=True),
     T('c02-benign-literal-order', DT, "string not in 'ACGTUacgtu'", "string not in 'acgtuACGTU'", benign=True),
+    T('c02-general-partial-ignores-flag', DT, "        if string in self.codes and (use_ambiguities or string in self._encoding):", "        if string in self.codes:", expect=[('C02.M', 'GeneralDataType::partial-with-ambiguities-off')]),
+    T('c02-general-partial-flag-inverted', DT, "        if string in self.codes and (use_ambiguities or string in self._encoding):", "        if string in self.codes and (not use_ambiguities or string in self._encoding):", expect=[('C02.M', 'GeneralDataType::partial-with-ambiguities-off')]),
+    T('c02-benign-general-partial-encoding-first', DT, "        if string in self.codes and (use_ambiguities or string in self._encoding):", "        if string in self._encoding or (use_ambiguities and string in self.codes):", benign=True),
+    T('c02-polytomies-only-at-root', TM, "    tree.resolve_polytomies(update_bipartitions=True)\n", "    if len(tree.seed_node.child_nodes()) > 2:\n        tree.resolve_polytomies(update_bipartitions=True)\n", expect=[('C02.N', 'parse_tree::polytomies-resolved')]),
+    T('c02-benign-polytomies-no-bipartitions', TM, "    tree.resolve_polytomies(update_bipartitions=True)\n", "    tree.resolve_polytomies(update_bipartitions=False)\n    tree.update_bipartitions()\n", benign=True),
+    T('c02-root-branch-one-sided', TM, "            blens[child_1.index] += child_2.edge_length\n            blens[child_2.index] += child_1.edge_length\n", "            blens[child_1.index] += child_2.edge_length\n", expect=[('C02.N', 'UnRootedTreeModel.from_json::both-root-branches')]),
+    T('c02-root-branch-self-added', TM, "            blens[child_2.index] += child_1.edge_length\n", "            blens[child_2.index] += child_2.edge_length\n", expect=[('C02.N', 'UnRootedTreeModel.from_json::both-root-branches')]),
+    T('c02-leaf-index-by-enumeration-order', TM, "    taxa_dict = {taxon.label: idx for idx, taxon in enumerate(tree.taxon_namespace)}", "    taxa_dict = {node.taxon.label: idx for idx, node in enumerate(tree.leaf_node_iter())}", expect=[('C02.N', 'setup_indexes::leaf-index')]),
+    T('c02-sequences-not-sorted-by-name', AL, "        sequences.sort(key=lambda x: indexing[x.taxon])\n", "        pass\n", expect=[('C02.N', 'Alignment.__init__::sequences-sorted')]),
+    T('c02-tips-in-pattern-order', SP, "    for taxon in alignment.taxa:\n        partials.append(\n            torch.tensor(", "    for taxon_id in patterns:\n        partials.append(\n            torch.tensor(", expect=[('C02.N', 'compress_alignment::tips-emitted')]),
+    Mut('c02-memo-ignores-use-ambiguities', SP, '', "    def compute_tips_partials(self, use_ambiguities=False):\n        return compress_alignment(self.alignment, self.indices, use_ambiguities)",
+        "    def compute_tips_partials(self, use_ambiguities=False):\n        if self._cache is None:\n            self._cache = compress_alignment(self.alignment, self.indices, use_ambiguities)\n        return self._cache", expect=[('C02.N', 'memo::')], mode='text',
+        more=[dict(scope='', old="        self.indices = indices\n", new="        self.indices = indices\n        self._cache = None\n", mode='text')]),
 ]
